@@ -46,8 +46,12 @@ def load(target="inovesa"):
     db = os.path.join(bdir, "compile_commands.json")
     if not os.path.exists(db):
         os.makedirs(CACHE, exist_ok=True)
+        import fcntl
+        lock = open(os.path.join(CACHE, "cmake.lock"), "w")
+        fcntl.flock(lock, fcntl.LOCK_EX)          # one configure at a time; concurrent checks wait and then find the result
+    if not os.path.exists(db):
         for d in os.listdir(CACHE):
-            if d.startswith("cmake-"):
+            if d.startswith("cmake-") and ".tmp" not in d and d != "cmake-" + key:
                 shutil.rmtree(os.path.join(CACHE, d), ignore_errors=True)
         tmp = bdir + ".tmp%d" % os.getpid()
         r = subprocess.run(["cmake", "-S", REPO, "-B", tmp, "-G", "Ninja", "-Wno-dev",
